@@ -42,6 +42,14 @@ def cases(ctx):
         # ledger: `forced` is over-weighted so that every command occurs in the sample (checked by post_merge)
         m = models.gen_model(rng, n_ops=rng.randint(2, 14), sinks=rng.random() < 0.5, cmds=list(cmds) + [forced] * 8 + (["CvtToFuzzy"] * 4 if forced in arr.FUZZY_INPUT else []),
                              libs="nc" if i % 4 == 3 else "csv")
+        if i % 4 == 3:
+            # a column read as a non-negative whole number, squared and taken off itself: negative whole numbers, never a
+            # wrap-around of an unsigned type
+            pos = [c["result"] for c in m["commands"] if c["cmd"] == "EEMSRead" and c["args"].get("DataType") == "Positive Integer"]
+            if pos:
+                at = next(k for k, c in enumerate(m["commands"]) if c["cmd"] != "EEMSRead") if any(c["cmd"] != "EEMSRead" for c in m["commands"]) else len(m["commands"])
+                m["commands"][at:at] = [{"result": "PosSq", "cmd": "Multiply", "args": {"InFieldNames": [pos[0], pos[0]]}},
+                                        {"result": "PosDif", "cmd": "AMinusB", "args": {"A": pos[0], "B": "PosSq"}}]
         if i % 4 != 3 and i % 7 == 2:
             # the table is named through a symbolic link and "..": the file the operating system finds there is the input
             m["table"]["via_symlink"] = True
